@@ -565,9 +565,17 @@ func (w *Worker) makeSymSlice(fr *frame, instr *ssa.MakeSlice, n *Term) (SliceV,
 			break
 		}
 	}
+	virtualCap := 0
 	if bound == 0 {
 		if w.decideBool(T.Bin(OpSLt, T.Const(64, 1<<20), n), fr) {
-			w.hugeAlloc(fr, -1)
+			if w.allocCap > 1<<20 {
+				// inside the harness's declared allocation cap but beyond what the engine materialises: the slice
+				// gets 2^20 real cells and a larger nominal capacity; touching a cell beyond them is an engine
+				// error (inconclusive), never a silent pass
+				virtualCap = int(w.allocCap)
+			} else {
+				w.hugeAlloc(fr, -1)
+			}
 		}
 		bound = 1 << 20
 	}
@@ -579,6 +587,9 @@ func (w *Worker) makeSymSlice(fr *frame, instr *ssa.MakeSlice, n *Term) (SliceV,
 	base := make([]Value, bound)
 	for i := range base {
 		base[i] = z
+	}
+	if virtualCap > 0 {
+		return SliceV{Base: base, Len: virtualCap, Cap: virtualCap, NonNil: true, SymLen: n}, true
 	}
 	return SliceV{Base: base, Len: bound, Cap: bound, NonNil: true, SymLen: n}, true
 }
@@ -691,7 +702,11 @@ func (w *Worker) indexAddr(fr *frame, instr *ssa.IndexAddr, x, idx Value) Value 
 		if xv.SymLen != nil {
 			w.boundsCheckT(fr, it, xv.SymLen)
 		}
-		cells = xv.Base[xv.Off : xv.Off+xv.Len]
+		end := xv.Off + xv.Len
+		if end > len(xv.Base) {
+			end = len(xv.Base) // virtual capacity (see makeSymSlice)
+		}
+		cells = xv.Base[xv.Off:end]
 		if xv.Base == nil {
 			cells = nil
 		}
